@@ -138,8 +138,14 @@ class FuseSuccessiveClip(_FuseReluClipBase):
                 return ir.tensor(val2)
             return None
 
-        min_clip = combine(min_clip1, min_clip2, np.maximum)
+        # Clip2(Clip1(x)) = min(max(x, lo), hi) with hi = min(max(h1, l2), h2) and lo = min(max(l1, l2), hi):
+        # taking max(l1, l2) / min(h1, h2) alone is wrong when the two intervals do not overlap.
+        if max_clip1 is not None and min_clip2 is not None:
+            max_clip1 = np.maximum(max_clip1, min_clip2)
         max_clip = combine(max_clip1, max_clip2, np.minimum)
+        min_clip = combine(min_clip1, min_clip2, np.maximum)
+        if min_clip is not None and max_clip is not None:
+            min_clip = ir.tensor(np.array(np.minimum(min_clip.numpy(), max_clip.numpy()), dtype=dtype))
 
         return min_clip, max_clip
 
